@@ -7,7 +7,7 @@ wt=/tmp/wt/verify.$$
 git -C /repo worktree add -q --detach $wt HEAD || exit 3
 cd $wt
 res=""
-if git apply "$d/patch.diff"; then
+if git apply "$d/${PATCH:-patch.diff}"; then
   go build ./... >/dev/null 2>&1 && res="$res build=ok" || res="$res build=FAIL"
   go test -vet=off -count=1 ./... >/dev/null 2>&1 && res="$res suite=pass" || res="$res suite=FAIL"
   cp "$d/demo_test.go" zz_seeded_demo_test.go
